@@ -114,7 +114,7 @@ CLAIMS['C09'] = dict(
           'evaluates symbolically to n*(1+V)+E on every path (seven sibling sites) and the record (de)serialisers follow that table; header, footer and the six fixed-size records are written and read with the same '
           '(width, field) token table whose widths sum to the struct size; every shard writer assigns each footer offset/count on every path before writing the footer, accumulates the byte totals for every copied record, '
           'and sorts chunk rows before writing; the in-memory size accounting is replace-aware and counts chunk rows per chunk. These hold for every table size, key distribution and flag combination. '
-          'The interpolation search arithmetic is not decided.'),
+          'The truncated-prefix search is checked for its window invariant (bounds move only on the side justified by the three-way comparison; the scan stops only past a larger key); probe placement arithmetic and termination are not decided.'),
     note='Padding fields (_unused, _buffer) may be skipped by readers that read the whole fixed-size record first.')
 CLAIMS['C07'] = dict(
     technique='static analysis: reader/writer token-table agreement (width, repetition, field), sibling-implementation agreement over an abstracted step alphabet, def-use provenance of offsets and header fields',
